@@ -36,6 +36,14 @@ def decodeUsesPointerNum : List (String × Bool) :=
 
 def nilChainRecorded : Bool := true
 
+/-- `internalMarshal` is a function of the tree `reflect` unfolds: one parameter, recursive
+    calls with one argument, no pointer identity asked for (`marshalL = enc ∘ erase`) -/
+def encodeWalkStateless : Bool := true
+/-- every registry key the encoder writes is `rm[<the exact reflect.Type>]` (`keyOf ctx t`) -/
+def typeKeysByExactType : Bool := true
+/-- every map entry is decoded into a key of its own (`placeKVs`) -/
+def mapKeyFreshPerEntry : Bool := true
+
 /-- the model's fact record built from the tables above -/
 def factsOf (uses : List (String × Bool)) (nilChain : Bool) : Facts :=
   { ptrBasic := (uses.lookup "Type").getD false
